@@ -76,6 +76,7 @@ type cmConv struct {
 	script    []int // ticker mode: outcomes consumed in order (then ok)
 	useScript bool
 	running   bool // the last Start succeeded and Close was not called since
+	closeErr  bool // outcome of the next Close (per-step oracle, clamgr_ext.go): nil / an error
 
 	// schedule points for clamgr_conc.go: when armed, called once from inside the next Start / Close
 	onStart, onClose func()
@@ -120,8 +121,13 @@ func (c *cmConv) Close() error {
 	}
 	c.mu.Lock()
 	c.running = false
+	fail := c.closeErr
 	c.mu.Unlock()
 	c.log.add(c.id, cmClose)
+	if fail {
+		// the adapter is stopped all the same (the property speaks of "stopped", not of Close() == nil)
+		return errors.New("scripted close failure")
+	}
 	return nil
 }
 func (c *cmConv) isRunning() bool {
@@ -165,6 +171,7 @@ type cmWorld struct {
 	mgr    *cla.Manager
 	fwd    chan cla.ConvergenceStatus // what the manager forwarded on Channel()
 	closed bool
+	hung   bool // a step did not return: a goroutine of the manager may hold an element mutex for ever
 }
 
 func cmNewWorld(qttl int, ads []cmAdCfg, retry time.Duration) *cmWorld {
@@ -267,7 +274,7 @@ func (w *cmWorld) closeMgr() string {
 
 // cleanup leaves no goroutines behind (not recorded).
 func (w *cmWorld) cleanup() {
-	if w.closed {
+	if w.closed || w.hung {
 		return
 	}
 	for _, p := range w.phantoms() {
@@ -281,6 +288,8 @@ type cmStep struct {
 	ev     int // 0 reg 1 unreg 2 restart 3 tick 4 pg 5 close
 	id     int
 	oracle []int
+	// outcome of Close per adapter during this step (true = Close returns an error); nil = all succeed
+	coracle []bool
 }
 
 var cmEvSym = []string{"reg", "unreg", "restart", "tick", "pg", "close"}
@@ -293,6 +302,14 @@ func (w *cmWorld) setOracle(o []int) {
 		} else {
 			c.next = cmOk
 		}
+		c.mu.Unlock()
+	}
+}
+
+func (w *cmWorld) setCloseOracle(co []bool) {
+	for i, c := range w.convs {
+		c.mu.Lock()
+		c.closeErr = i < len(co) && co[i]
 		c.mu.Unlock()
 	}
 }
@@ -322,6 +339,7 @@ func (w *cmWorld) peerGone(id int) string {
 
 func (w *cmWorld) exec(s cmStep) string {
 	w.setOracle(s.oracle)
+	w.setCloseOracle(s.coracle)
 	switch s.ev {
 	case 0:
 		return cmGuarded(func() { w.mgr.Register(w.ifaces[s.id]) })
@@ -342,6 +360,9 @@ func (w *cmWorld) exec(s cmStep) string {
 }
 
 func (w *cmWorld) observe(status string) (S, int) {
+	if status == "timeout" {
+		w.hung = true
+	}
 	calls := w.log.take()
 	var cs []S
 	starts := 0
@@ -367,7 +388,10 @@ func (w *cmWorld) observe(status string) (S, int) {
 		}
 		return LL(l)
 	}
-	dump := w.mgr.VerifDump()
+	var dump []cla.VerifElem
+	if !w.hung { // VerifDump takes the element mutexes, which a hung deactivate() holds for ever
+		dump = w.mgr.VerifDump()
+	}
 	sort.Slice(dump, func(i, j int) bool { return dump[i].Address < dump[j].Address })
 	var ds []S
 	for _, e := range dump {
